@@ -70,7 +70,9 @@ def sync_scenario(exe, shim, root, seed, stats, tier):
         mode = rng.choice(['before', 'after', 'mid', 'sigint'])
         shutil.rmtree(a.root); shutil.copytree(backup, a.root, symlinks=True)
         before = data_digest(a)
-        env = {'LD_PRELOAD': shim}
+        klog = os.path.join(vlib.scratch(), 'klog_%d_%d' % (seed, k))
+        env = {'LD_PRELOAD': shim, 'VERIF_LOG': klog}
+        par_sizes = {pf: os.path.getsize(pf) for l in range(a.nparity) for pf in a.parity_files(l) if os.path.exists(pf)}
         if mode == 'sigint':
             env['VERIF_SIGNAL'] = '%d:%d' % (k, signal.SIGINT)
         else:
@@ -81,7 +83,20 @@ def sync_scenario(exe, shim, root, seed, stats, tier):
         if mode != 'sigint' and r.rc != -9:
             stats['not_fired'] += 1
             continue
-        desc = '%s: sync %s at state-changing call %d of %d' % (cfg, 'receives SIGINT' if mode == 'sigint' else 'killed ' + mode, k, total)
+        # did the interrupted run shrink a parity file without having replaced the content file yet?
+        shrunk = False
+        if os.path.exists(klog):
+            renamed = False
+            for line in open(klog, errors='replace'):
+                t = line.rstrip('\n').split(' ')
+                if len(t) < 3: continue
+                if t[1] == 'rename' and '/content' in line: renamed = True
+                if t[1] == 'ftruncate' and t[2] in par_sizes and not renamed:
+                    kv = dict(x.split('=') for x in t[3:] if '=' in x)
+                    if int(kv.get('len', '0')) < par_sizes[t[2]]: shrunk = True
+            os.unlink(klog)
+        desc = '%s: sync %s at state-changing call %d of %d%s' % (cfg, 'receives SIGINT' if mode == 'sigint' else 'killed ' + mode, k, total,
+                                                                 ' [parity-shrunk-before-content-save]' if shrunk and mode != 'sigint' else '')
         problem = None
         if data_digest(a) != before:
             problem = 'a data file was modified by the interrupted sync'
@@ -102,6 +117,16 @@ def sync_scenario(exe, shim, root, seed, stats, tier):
             if p:
                 problem = ('after %s: ' % ('graceful stop' if mode == 'sigint' else 'kill')) + p
         if not problem:
+            if not adds_only and rng.chance(1, 2):
+                # before resuming, files deleted in the interrupted change set come back with the same bytes
+                # (restored from a backup: new inode and time-stamp)
+                for key, v in old_snap.items():
+                    if v[0] == 'f' and not os.path.lexists(a.path(key[0], key[1])):
+                        try:
+                            a.write(key[0], key[1], v[1], s.tick())
+                            s.log('restore (same bytes) %s/%r' % key)
+                        except OSError:
+                            pass
             r2 = s.sync()
             if r2.rc != 0:
                 problem = 'running sync again after the interruption fails (exit %d): %s' % (r2.rc, r2.out[-200:].replace('\n', ' '))
@@ -179,6 +204,39 @@ def fix_scenario(exe, shim, root, seed, stats, tier):
     a.destroy()
     return out or None
 
+def directed_shrink(exe, shim, root):
+    """the recorded finding C07-shrink, replayed on every run: returns violation text or None"""
+    a = e2e.Arr(root, exe, ndisks=2, nparity=1, ncontent=1)
+    rng = e2e.Rng(11)
+    s = sim.Sim(a, rng, weird_names=False)
+    a.write('d1', 'A', rng.bytes(1024), s.tick())
+    F = rng.bytes(7 * 1024)
+    a.write('d2', 'F', F, s.tick())
+    s.sync()
+    os.unlink(a.path('d2', 'F'))
+    lg = os.path.join(vlib.scratch(), 'dshrink.log')
+    backup = root + '.bak'
+    shutil.copytree(a.root, backup, symlinks=True)
+    a.cmd('sync', '--force-empty', env={'LD_PRELOAD': shim, 'VERIF_LOG': lg}, uselog=False)
+    k = None
+    for line in open(lg, errors='replace'):
+        t = line.split(' ')
+        if len(t) > 2 and t[1] == 'ftruncate' and '/par/' in t[2]:
+            k = int(t[0]); break
+    os.unlink(lg)
+    shutil.rmtree(a.root); shutil.copytree(backup, a.root, symlinks=True); shutil.rmtree(backup)
+    if k is None:
+        a.destroy(); return None
+    r = a.cmd('sync', '--force-empty', env={'LD_PRELOAD': shim, 'VERIF_KILL': '%d:after' % k}, uselog=False)
+    a.write('d2', 'F', F, s.tick())
+    s.remember()
+    r2 = s.sync()
+    pr, _ = s.invariant_problems()
+    a.destroy()
+    if r.rc == -9 and pr:
+        return 'after re-running sync: %s; directed history: sync, delete the last file, sync killed right after the parity ftruncate (call %d), file restored with the same bytes, sync [parity-shrunk-before-content-save]' % (pr[0], k)
+    return None
+
 def main(tier, seed):
     chk = vlib.Check('C07', 'fault_enumeration', tier, seed)
     chk.assumptions = ['process death is SIGKILL raised inside the LD_PRELOAD shim just before / just after / in the middle (half write) of the k-th state-changing libc call; page cache survives (power-loss reordering below the fsync contract is out of scope, see C09 for the content save)',
@@ -195,6 +253,10 @@ def main(tier, seed):
         exe = vlib.build_snapraid(); shim = vlib.build_shim()
     except vlib.BuildError as e:
         chk.violation('build of /repo failed: ' + str(e)[:300], str(e), False, 'build'); chk.finish()
+    dv = directed_shrink(exe, shim, os.path.join(vlib.scratch(), 'dshrink'))
+    chk.extra['directed_C07_shrink'] = dv or 'not reproduced'
+    if dv:
+        chk.violation('C07 ' + dv, dv, True, 'known_shrink')
     ns, nf = (24, 10) if tier == 'quick' else (160, 60)
     stats = {'runs': 0, 'not_fired': 0, 'modes': {}, 'recover_meanwhile': 0}
     jobs = [('sync', i) for i in range(ns)] + [('fix', i) for i in range(nf)]
